@@ -4,8 +4,8 @@ spec/SigQuorum.tla (+ TraceSigQuorum.tla, QuorumDefs.tla); driver harness/cmd/vd
   1. P-MC      design theorem: on every header over a small key universe and every set in force, the code-shaped
                test (m, membership, no repeats, greedy mask) implies the monitor (>= need distinct members signed),
                and canonical headers pass; both threshold rules, vbft and solo branch.
-               Sensitivity run: with AsIs = TRUE (block set assigned before the body is checked - the code as it
-               stands) TLC must find the set-discipline counterexample; if it does not, the model lost its teeth.
+               Sensitivity run: with AsIs = TRUE (block set assigned before the body is checked - the code before
+               fix 306f139) TLC must find the set-discipline counterexample; if it does not, the model lost its teeth.
   2. P-TABLE   TLC prints the decision table (all signer subsets x 18 header variants: repeated / foreign / unlisted
                signer, bad / missing / surplus / reordered signatures) for vbft-legacy, vbft-bft (header index padded
                beyond 20,000,000 on the main network), and the solo branch (incl. 17 bookkeepers); every row is
@@ -65,7 +65,7 @@ def run(ctx):
     if q:
         worlds = {("vbft", "legacy"): ([1, 2, 3, 4, 5, 8], {1: "hdr,sub,add", 2: "hdr,sub,add", 3: "hdr,sub,add", 4: "hdr,sub,add", 5: "hdr", 8: "hdr,sub"}),
                   ("vbft", "bft"): ([3, 4, 7], {3: "hdr,sub", 4: "hdr,sub,add", 7: "hdr"}),
-                  ("solo", "bft"): ([1, 2, 3, 4, 5, 17], {1: "hdr,sub,add", 2: "hdr,sub,add", 3: "hdr,sub,add", 4: "hdr,sub,add", 5: "hdr", 17: "hdr,sub,add"})}
+                  ("solo", "bft"): ([1, 2, 3, 4, 5, 16, 17], {1: "hdr,sub,add", 2: "hdr,sub,add", 3: "hdr,sub,add", 4: "hdr,sub,add", 5: "hdr", 16: "hdr,sub", 17: "hdr,sub,add"})}
         fulln = 5
     else:
         worlds = {("vbft", "legacy"): ([1, 2, 3, 4, 5, 6, 7, 8, 15, 22], {7: "hdr,sub", 15: "hdr,sub", 22: "hdr"}),
@@ -116,7 +116,7 @@ def run(ctx):
                 if not (s["mode"] == "solo" and s["n"] > 16):
                     ctx.fail("ledger could not be created: %s" % s)
                 ctx.note("solo ledger with %d bookkeepers cannot be created (%s): %d rows not executed" % (s["n"], s["err"][:80], s["rows"]))
-            tevents.extend(o for o in out if "op" in o)
+            tevents.extend(o for o in out if "op" in o and not o.get("skipped"))
         take_table(out)
         # ---- 3. replay
         if q:
